@@ -83,6 +83,22 @@ func (x *Exec) verifyFunc(fn *ssa.Function, c *FuncContract) (err error) {
 		args = append(args, v)
 		names[p.Name()] = v
 	}
+	// a closure verified as a unit: its captured variables are arbitrary
+	var binds []Value
+	for _, fv := range fn.FreeVars {
+		pt := pointee(fv.Type())
+		if pt == nil {
+			unsupported("free variable %s of non-pointer type", fv.Name())
+		}
+		cell := x.newCell(fv.Name(), pt)
+		cv := x.symbolic(st, pt, "fv."+fv.Name())
+		st.cells[cell] = cv
+		if cv.K == KSlice {
+			sliceRids = append(sliceRids, cv.Rid)
+		}
+		binds = append(binds, Value{K: KPtr, T: fv.Type(), B: BCell, Cell: cell})
+		names[fv.Name()] = cv
+	}
 	// ledger 5: distinct slice parameters do not share a region (unless both nil)
 	for i := 0; i < len(sliceRids); i++ {
 		for j := i + 1; j < len(sliceRids); j++ {
@@ -123,7 +139,7 @@ func (x *Exec) verifyFunc(fn *ssa.Function, c *FuncContract) (err error) {
 		x.probeValue(st.clone(), "ghost."+g, st.ghost[g], 2)
 	}
 	run := st.clone()
-	outs := x.runFunc(run, fn, args, nil, nil, c, "", fn.Pos())
+	outs := x.runFunc(run, fn, args, binds, nil, c, "", fn.Pos())
 	nret := 0
 	for _, o := range outs {
 		if o.st.infeasible() {
